@@ -106,6 +106,34 @@ func topicsIntersect(a, b []string) bool {
 
 var topicUniverse = []string{sse.DefaultTopic, "a", "b", "c"}
 
+// wideTopics is a universe of a hundred topic names (plus DefaultTopic) for runs with large topic
+// sets: dozens of topics per subscription, more distinct topics over a provider's lifetime than
+// fit a machine word.
+var wideTopics = func() []string {
+	out := []string{sse.DefaultTopic}
+	for i := 0; i < 100; i++ {
+		out = append(out, fmt.Sprintf("t%02d", i))
+	}
+	return out
+}()
+
+// genTopicsWide draws a topic set of a drawn size (1 … 90) from wideTopics; small sets for
+// messages, any size for subscriptions.
+func genTopicsWide(ch *Chooser, label string, forMessage bool) []string {
+	sizes := []int{1, 2, 3, 16, 17, 40, 64, 65, 66, 90}
+	n := sizes[ch.Intn(len(sizes), label+" topic count")]
+	if forMessage {
+		n = 1 + ch.Intn(3, label+" topic count")
+	}
+	start := ch.Intn(len(wideTopics), label+" first topic")
+	stride := []int{1, 7, 13}[ch.Intn(3, label+" topic stride")] // coprime to 101
+	out := make([]string, 0, n)
+	for i := 0; i < n; i++ {
+		out = append(out, wideTopics[(start+i*stride)%len(wideTopics)])
+	}
+	return out
+}
+
 // genTopics draws a non-empty topic set.
 func genTopics(ch *Chooser, label string) []string {
 	var out []string
